@@ -16,7 +16,7 @@ TRUSTED_BASE = [
     "histories on a fresh Runtime followed by call expressions; custom functions return {id, args} so identity and received arguments are observable",
 ]
 ASSUMPTIONS = TRUSTED_BASE
-RULE = ("histories of 0-8 operations over a small name pool (builtin names and new names; custom functions with ids and one of 9 signatures (three with typed variadic tails) "
+RULE = ("histories of 0-8 operations over a small name pool (builtin names and new names; custom functions with ids and one of 12 signatures (typed variadic tails, nested / union typed-array element types) "
         "incl. none), then 3-6 call expressions (registered, shadowed, deregistered, unknown names; nested calls; expref arguments; wrong "
         "arity/types). Expected name binding is also computed by the checker itself (last live registration). Non-trivial = distinct "
         "history with at least one register and one query that reaches a custom function.")
@@ -26,7 +26,13 @@ QUERIES = ["{f}(@)", "{f}(a, b)", "{f}(&a, @)", "{f}()", "{f}(`1`, 'x')", "{f}({
            "a.{f}(@)", "{f}(`[1,2]`)", "{f}(`[\"a\"]`)", "{f}(*)", "{f}(@).args[0]",
            # variadic tails: every argument after the declared ones is checked against the variadic type, not only the first
            "{f}('a', 'b', 'c')", "{f}('a', 'b', `1`)", "{f}('a', 'b', 'c', @)", "{f}(`1`, `2`, 'x')", "{f}(`1`, `2`, `3`, `null`, a)",
-           "{f}(`1`, `null`, `2`, 'x')", "{f}('a', `1`)", "{f}(`1`, `2`, `3`, `4`)"]
+           "{f}(`1`, `null`, `2`, 'x')", "{f}('a', `1`)", "{f}(`1`, `2`, `3`, `4`)",
+           # compound element types of typed arrays: every element is checked against the element type, not only the first
+           "{f}(`[[1,2],[3]]`)", "{f}(`[[1,2],[\"a\"]]`)", "{f}(`[\"a\",1,\"b\"]`)", "{f}(`[\"a\",1,null]`)", "{f}(`[[null,\"a\"],[]]`)",
+           "{f}(`[[null],[1]]`)", "{f}(`[[1],2]`)", "{f}(`[]`)", "{f}(`[[\"a\"]]`, `[1]`, `2`)",
+           # calls inside the expression reference of a higher-order builtin use the same registry as everything else
+           "max_by(@, &{f}(@))", "min_by(a, &{f}(@))", "sort_by(@, &{f}(@).id)", "map(&{f}(@), @)", "max_by(`[1,2]`, &{f}(@).id)",
+           "min_by(`[1,2]`, &{f}(@).id)", "map(&{f}(@).id, `[1,\"a\"]`)", "sort_by(`[\"b\",\"a\"]`, &{f}(@).args[0])"]
 
 
 # the harness's signature menu, restated for the checker-side guard oracle: (declared types, variadic type)
@@ -73,7 +79,7 @@ def gen(ctx):
         for _ in range(rng.randrange(0, 9)):
             r = rng.random()
             if r < 0.55:
-                ops.append(("r", rng.choice(NAMES), rng.randrange(1, 50), rng.randrange(0, 10)))
+                ops.append(("r", rng.choice(NAMES), rng.randrange(1, 50), rng.randrange(0, 13)))
             elif r < 0.8:
                 ops.append(("d", rng.choice(NAMES)))
             else:
